@@ -350,6 +350,17 @@ OpSerde(ts, m) ==
        de |-> IF f.panic THEN <<>> ELSE [j \in 1..Len(f.post) |-> <<0, f.post[j].c, f.post[j].r, 0, f.post[j].v>>],
        ok |-> ~f.panic, eq |-> ~f.panic /\ EqMaps(f.post, ts)], ts, {}, {})
 
+\* Decoding a HAND-MADE stream (not the container's own output): the visitor is a loop of insert, so
+\* the decoded container is the fold of inserts over the stream's entries - repeated keys collapse, the
+\* last value wins, the first key object (visible through its version field) is kept; a stream with more
+\* distinct keys than the target holds is refused (by the panic of insert). The container under test
+\* plays no role and is unchanged.
+OpDeItems(ts, cap, items) ==
+  LET f == FoldInserts(<<>>, cap, items, 1, {}, {}) IN
+  Res([ok |-> ~f.panic,
+       de |-> IF f.panic THEN <<>> ELSE [j \in 1..Len(f.post) |-> <<0, f.post[j].c, f.post[j].r, 0, f.post[j].v>>]],
+      ts, {}, {})
+
 \* ------------------------------------------------------------ dispatch --
 Apply(ts, cap, op) ==
   CASE op.name = "insert"           -> OpInsert(ts, cap, op.k, op.v)
@@ -399,6 +410,7 @@ Apply(ts, cap, op) ==
     [] op.name = "clone_from"       -> OpCloneFrom(ts, op.dst, FALSE)
     [] op.name = "s_clone_from"     -> OpCloneFrom(ts, op.dst, TRUE)
     [] op.name = "serde"            -> OpSerde(ts, op.m)
+    [] op.name = "de_items"         -> OpDeItems(ts, cap, op.stream)
 
 AltOf(ts, cap, op) ==
   IF op.name = "disjoint" THEN OpDisjointAlt(ts, op.ks, op.w, op.unchecked)
